@@ -7,11 +7,16 @@ PY_SUBSET = ('Python semantics of the executed subset as encoded by pyvc.symexec
 PROPS = {
     'C02': {
         'level': 'other',
-        'proof': [('contracts.lcs', None)],
+        'proof': [('contracts.lcs', None), ('contracts.nm_update', ['new_advan_trans'])],
+        'bounded': [('contracts.nm_update', 'src/pharmpy/model/external/nonmem/update.py:new_advan_trans',
+                     'every model handed to new_advan_trans while one (quick) / two (thorough) structural setters '
+                     'are applied to three start models')],
         'custom': [('contracts.b_nm', 'bounded_codegen_roundtrip')],
         'assumptions': [PY_SUBSET],
-        'explanation': 'the edit scripts consumed by the code generator (lcs.diff) are proved; everything else about '
-                       'C02 (choice of ADVAN/TRANS, parameter renaming, printer, dataset columns) is covered only by a '
+        'explanation': 'the edit scripts consumed by the code generator (lcs.diff) and the choice of the ADVAN/TRANS '
+                       'pair (new_advan_trans: first matching library routine, a pair PREDPP accepts, ADVAN13 without '
+                       'TRANS for nonlinear systems; structure predicates abstract) are proved; everything else about '
+                       'C02 (parameter renaming, printer, dataset columns) is covered only by a '
                        'bounded write/read round trip of models reached by <=1 (quick) / <=2 structural '
                        'transformations and of printed expressions',
     },
@@ -176,7 +181,7 @@ PROPS = {
     },
     'C04': {
         'level': 'other',
-        'proof': [('contracts.lcs', None), ('contracts.nm_update', None)],
+        'proof': [('contracts.lcs', None), ('contracts.nm_update', ['reorder_diff'])],
         'bounded': [('contracts.lcs', 'src/pharmpy/internals/sequence/lcs.py:diff',
                      'all pairs of sequences over {a,b,c} up to length 4 (quick) / 5 (thorough)')],
         'custom': [('contracts.b_db', 'bounded_record_updates')],
